@@ -87,7 +87,7 @@ inline ccl::semantic::ConceptRecord toRecord(const Rec& r, EntityUID resolved = 
 }
 
 struct Op {
-  enum Kind { EMPLACE, ERASE, SET_EXPR, SET_ALIAS, SET_TERM, SET_TEXT, SET_CONV, MOVE, INSERT_REC, INSERT_RECS, INSERT_FROM, RESET_ALIASES, TRACK, UNTRACK, MERGE, DEDUP, ERASE_MISSING, SET_FORM, DUPLICATE, N } kind = EMPLACE;
+  enum Kind { EMPLACE, ERASE, SET_EXPR, SET_ALIAS, SET_TERM, SET_TEXT, SET_CONV, MOVE, INSERT_REC, INSERT_RECS, INSERT_FROM, RESET_ALIASES, TRACK, UNTRACK, MERGE, DEDUP, ERASE_MISSING, SET_FORM, DUPLICATE, LOAD, N } kind = EMPLACE;
   int target = 0, where = 0;     // list indices (modulo current length)
   CstType cst = CstType::term;
   std::string text;              // definition / alias / text
@@ -96,11 +96,11 @@ struct Op {
   std::vector<int> picks;        // indices into the other schema
 };
 inline const char* opName(Op::Kind k) {
-  static const char* n[] = {"Emplace", "Erase", "SetExpression", "SetAlias", "SetTerm", "SetText", "SetConvention", "MoveBefore", "InsertRecord", "InsertRecords", "InsertFromSchema", "ResetAliases", "Track", "StopTracking", "MergeWith", "DeleteDuplicates", "EraseMissing", "SetTermForm", "InsertDuplicateOf"};
+  static const char* n[] = {"Emplace", "Erase", "SetExpression", "SetAlias", "SetTerm", "SetText", "SetConvention", "MoveBefore", "InsertRecord", "InsertRecords", "InsertFromSchema", "ResetAliases", "Track", "StopTracking", "MergeWith", "DeleteDuplicates", "EraseMissing", "SetTermForm", "InsertDuplicateOf", "Load+UpdateState"};
   return n[k];
 }
 
-struct GenOpts { bool tracking = false; bool merges = false; bool forms = false; int maxOps = 14; };
+struct GenOpts { bool tracking = false; bool merges = false; bool forms = false; int maxOps = 14; bool loads = false; };
 
 inline std::vector<Op> genHistory(pbt::Ctx& c, const GenOpts& o) {
   std::vector<Op> ops;
@@ -121,7 +121,7 @@ inline std::vector<Op> genHistory(pbt::Ctx& c, const GenOpts& o) {
     else if (k < 71) { op.kind = Op::SET_TEXT; op.text = genText(c); }
     else if (k < 74) { op.kind = Op::SET_CONV; op.text = c.coin() ? "convention X1" : ""; }
     else if (k < 81) op.kind = Op::MOVE;
-    else if (k < 86) { op.kind = Op::INSERT_REC; op.recs.push_back(genRec(c)); }
+    else if (k < 86) { op.kind = (o.loads && c.coin()) ? Op::LOAD : Op::INSERT_REC; op.recs.push_back(genRec(c)); }
     else if (k < 90) { op.kind = Op::INSERT_RECS; const int m = c.ipick(1, 3); for (int j = 0; j < m; ++j) op.recs.push_back(genRec(c)); }
     else if (k < 93) { op.kind = Op::INSERT_FROM; const int m = c.ipick(1, 3); for (int j = 0; j < m; ++j) op.picks.push_back(c.ipick(0, 5)); const int r = c.ipick(2, 4); for (int j = 0; j < r; ++j) op.recs.push_back(genRec(c)); op.flag = c.coin(); }
     else if (k < 94) op.kind = Op::RESET_ALIASES;
@@ -144,7 +144,7 @@ inline std::string showOp(const Op& op) {
     case Op::SET_FORM: case Op::SET_EXPR: case Op::SET_TERM: case Op::SET_TEXT: case Op::SET_CONV: s += "(#" + std::to_string(op.target) + ", '" + op.text + "')"; break;
     case Op::SET_ALIAS: s += "(#" + std::to_string(op.target) + ", '" + op.text + "'" + (op.flag ? ", substitute" : ", keep-mentions") + ")"; break;
     case Op::MOVE: s += "(#" + std::to_string(op.target) + " before #" + std::to_string(op.where) + ")"; break;
-    case Op::INSERT_REC: case Op::INSERT_RECS: case Op::MERGE: for (auto& r : op.recs) s += " " + showRec(r); break;
+    case Op::LOAD: case Op::INSERT_REC: case Op::INSERT_RECS: case Op::MERGE: for (auto& r : op.recs) s += " " + showRec(r); break;
     case Op::INSERT_FROM: s += " other:"; for (auto& r : op.recs) s += " " + showRec(r); s += " take"; for (int p : op.picks) s += " #" + std::to_string(p); break;
     default: break;
   }
@@ -239,6 +239,7 @@ struct Executor {
         r.returned = form.MoveBefore(r.uid, it); break;
       }
       case Op::INSERT_REC: r.uid = form.InsertCopy(record(op.recs[0])); r.created = {r.uid}; break;
+      case Op::LOAD: r.uid = form.Load(record(op.recs[0])); form.UpdateState(); r.created = {r.uid}; break;  // the loading primitive + the refresh every loader performs
       case Op::INSERT_RECS: { std::vector<ccl::semantic::ConceptRecord> v; for (auto& x : op.recs) v.push_back(record(x)); r.created = form.InsertCopy(v); break; }
       case Op::INSERT_FROM: {
         RSForm other; for (auto& x : op.recs) other.InsertCopy(record(x));
